@@ -308,6 +308,8 @@ def _direct_bernoulli(spec, ctx, cc):
         ctx.evaluated()
         want = ref.bernoulli_nll(cc._np(xt), cc._np(pt))
         inside = cc.bernoulli_judged_mask(np.broadcast_to(cc._np(pt), want.shape), dp)
+        if w is not None:  # entries of weight 0 are meaningless (never enter a sum): not judged (correction after the C06 repair)
+            inside = inside & np.broadcast_to(cc._np(w) != 0, want.shape)
         tol = cc.tol_of(xt, pt)
         wt = WeightedTensor(xt, w)
         for path, fn in (("nll", lambda: BernoulliFamily.nll(wt, pt)), ("symbolic-nll", lambda: f_nll(the_value=wt, the_p=pt))):
